@@ -1989,34 +1989,56 @@ void in_child(vh::Case &c, Body body)
 }
 
 // the model of Resource::Create: defaults < environment < caller, then the service.name rule
-SMap create_model(const RawMap &env, const SMap &caller, bool *synthesized, bool *odd_exe)
+struct CreateModel
 {
-  SMap m;
+  SMap want;
+  bool synthesized = false;  // no layer names the service: "unknown_service[:<executable>]"
+  bool prefix_only = false;  // ... and process.executable.name is not a string: only the prefix is required
+};
+
+CreateModel create_model(const RawMap &env, const GenAttrs &caller)
+{
+  CreateModel r;
+  SMap &m                     = r.want;
   m["telemetry.sdk.language"] = "str:" + canon_str("cpp");
   m["telemetry.sdk.name"]     = "str:" + canon_str("opentelemetry");
   m["telemetry.sdk.version"]  = "str:" + canon_str(OPENTELEMETRY_SDK_VERSION);
   for (auto &kv : env)
     m[kv.first] = "str:" + canon_str(kv.second);
-  for (auto &kv : caller)
+  for (auto &kv : caller.model)
     m[kv.first] = kv.second;
-  *synthesized = false;
-  *odd_exe     = false;
-  if (!m.count("service.name"))
+  if (m.count("service.name"))
+    return r;
+  r.synthesized = true;
+  if (!m.count("process.executable.name"))
   {
-    *synthesized = true;
-    auto it      = m.find("process.executable.name");
-    if (it == m.end())
-      m["service.name"] = "str:" + canon_str("unknown_service");
-    else if (it->second.compare(0, 4, "str:") == 0)
-    {
-      // canonical "str:<len>:<shown>": rebuild from the raw text instead
-      auto e = env.find("process.executable.name");
-      (void)e;
-      m["service.name"] = "";  // filled by the caller, which knows the raw string
-    }
-    else
-      *odd_exe = true;  // a non-string executable name: only the "unknown_service" prefix is required
+    m["service.name"] = "str:" + canon_str("unknown_service");
+    return r;
   }
-  return m;
+  // the winning process.executable.name: the caller's last spec with that key, else the environment's
+  const Spec *spec = nullptr;
+  for (auto &s : caller.specs)
+    if (s.key == "process.executable.name")
+      spec = &s;
+  if (spec == nullptr)
+    m["service.name"] = "str:" + canon_str("unknown_service:" + env.at("process.executable.name"));
+  else if (spec->type == T_SV || spec->type == T_CSTR)
+    m["service.name"] = "str:" + canon_str("unknown_service:" + (spec->strs.empty() ? std::string() : spec->strs[0]));
+  else
+    r.prefix_only = true;
+  return r;
+}
+
+bool create_matches(const SMap &got, const CreateModel &cm)
+{
+  if (!cm.prefix_only)
+    return got == cm.want;
+  SMap g  = got;
+  auto it = g.find("service.name");
+  if (it == g.end() || it->second.compare(0, 4, "str:") != 0 ||
+      it->second.find(":unknown_service") == std::string::npos)
+    return false;
+  g.erase(it);
+  return g == cm.want;
 }
 }  // namespace
